@@ -14,7 +14,10 @@ import (
 
 // hashElemOrigins returns the access paths of the [32]byte values that may flow into a hash
 // expression such as string(hash[:]) where hash ranges over a literal.
-func hashElemOrigins(v ssa.Value) []string {
+func hashElemOrigins(v ssa.Value) []string { return hashElemOriginsR(v, idRes) }
+
+// hashElemOriginsR names the origins through a resolver (the expression may sit in a helper).
+func hashElemOriginsR(v ssa.Value, res resolver) []string {
 	// strip conversion / slicing down to the array value or its variable
 	for i := 0; i < 6; i++ {
 		switch x := v.(type) {
@@ -43,7 +46,7 @@ func hashElemOrigins(v ssa.Value) []string {
 	var out []string
 	for _, x := range vals {
 		for _, o := range origins(x) {
-			out = append(out, pathOf(o))
+			out = append(out, res(o))
 		}
 	}
 	return uniqStrings(out)
@@ -318,14 +321,16 @@ func runC09(w *World, r *Report) {
 	r.rule("parents-exist", "addLeafMemorized: the insertion is reachable only after the loop over {Left,Right}ParentHash completed, and every iteration crosses the found-edge of GetVertex for its element", 3)
 	if f := w.fx(r, "accountant", "AccountingBook", "addLeafMemorized"); f != nil {
 		fn := f.fn
-		adds := f.calls(nAddVertexByID)
+		adds := deepCalls(fn, byName(nAddVertexByID), deepDepth)
 		if len(adds) == 1 {
-			_, aa := callArgs(adds[0])
-			v := pathOf(aa[1])
+			_, aa := callArgs(adds[0].c)
+			v := adds[0].path(aa[1])
 			found := false
-			for _, g := range f.calls(nGetVertex) {
+			for _, gd := range deepCalls(fn, byName(nGetVertex), deepDepth) {
+				g := gd.c
+				gfn := g.Parent()
 				_, ga := callArgs(g)
-				ps := hashElemOrigins(ga[0])
+				ps := hashElemOriginsR(ga[0], gd.res())
 				if strings.Join(ps, ",") != v+".LeftParentHash,"+v+".RightParentHash" {
 					continue
 				}
@@ -351,9 +356,20 @@ func runC09(w *World, r *Report) {
 					continue
 				}
 				okIter := !reachable([]*ssa.BasicBlock{bodyE.To()}, edgeSet(passErrNil(g), []Edge{*doneE}))[h]
+				_ = gfn
 				r.check(okIter && len(passErrNil(g)) > 0, "parents-exist", "addLeafMemorized/every-iteration", lineOf(w, g), "no way back to the loop header (next parent) without the found-edge of GetVertex", "an iteration can continue without having found its parent")
-				okOnlyDone := !reachable([]*ssa.BasicBlock{fn.Blocks[0]}, edgeSet([]Edge{*doneE}))[adds[0].Block()]
-				r.check(okOnlyDone, "parents-exist", "addLeafMemorized/insert-after-loop", lineOf(w, adds[0]), "insertion reachable only through the loop's normal exit (all parents processed)", "insertion reachable by leaving the loop early or bypassing it")
+				// with the loop's normal exit cut, the insertion must be unreachable (the loop may sit in a helper: its
+				// successful return is then behind that exit, and the walk is pruned by the return it came back through)
+				reached := false
+				dw := newDeepWalk(func(in ssa.Instruction, _ *frame) bool {
+					if in == adds[0].c.(ssa.Instruction) {
+						reached = true
+					}
+					return reached
+				})
+				dw.cutFixed = edgeSet([]Edge{*doneE})
+				dw.run(topFrame(fn), fn.Blocks[0], 0)
+				r.check(!reached, "parents-exist", "addLeafMemorized/insert-after-loop", lineOf(w, adds[0].c), "insertion reachable only through the loop's normal exit (all parents processed)", "insertion reachable by leaving the loop early or bypassing it")
 			}
 			if !found {
 				r.bad("parents-exist", "addLeafMemorized/lookup", w.Pos(fn.Pos()), "a GetVertex lookup over both declared parent hashes must exist", "not found")
@@ -497,22 +513,32 @@ func runC10(w *World, r *Report) {
 	r.NotDecided = []string{"that the configured genesis wallet never signs (deployment)", "ledgers imported by means other than the three entry points"}
 	type guard struct {
 		label string
-		edges func(fn *ssa.Function) []Edge
+		edges gspec
 	}
-	isEmptyFalse := func(recvPath string) func(fn *ssa.Function) []Edge {
-		return func(fn *ssa.Function) []Edge {
+	pathIsR := func(res resolver, p string) func(ssa.Value) bool {
+		return func(v ssa.Value) bool { return res(v) == bp(p) }
+	}
+	isEmptyFalse := func(recvPath string) gspec {
+		return func(fn *ssa.Function, res resolver) []Edge {
 			var es []Edge
 			for _, c := range callsTo(fn, cn("transaction", "Transaction", "IsEmpty")) {
 				recv, _ := callArgs(c)
-				if pathOf(recv) == bp(recvPath) {
+				if res(recv) == bp(recvPath) {
 					es = append(es, passBool(c, 0, false)...)
 				}
 			}
 			return es
 		}
 	}
+	dagLoaded := func(fn *ssa.Function, _ resolver) []Edge {
+		var es []Edge
+		for _, c := range callsTo(fn, cn("accountant", "*AccountingBook", "DagLoaded")) {
+			es = append(es, passBool(c, 0, true)...)
+		}
+		return es
+	}
 	signerAddr := isCallTo(").Address")
-	r.rule("sealing-guards", "the protected effect lies behind the rejecting edge of every sealing rule of its entry point (operands bound by access path)", 8)
+	r.rule("sealing-guards", "the protected effect lies behind the rejecting edge of every sealing rule of its entry point (operands bound by access path; guards and effect may sit in helpers)", 8)
 	table := []struct {
 		fn     string
 		effect string // callee of the protected call
@@ -520,41 +546,33 @@ func runC10(w *World, r *Report) {
 	}{
 		{"CreateLeaf", nAddVertexByID, []guard{
 			{"transaction not empty", isEmptyFalse("trx")},
-			{"issuer != sealing node", func(fn *ssa.Function) []Edge { return cmpEdges(fn, pathIs("trx.IssuerAddress"), signerAddr, false) }},
-			{"issuer != genesis wallet", func(fn *ssa.Function) []Edge {
-				return cmpEdges(fn, pathIs("trx.IssuerAddress"), pathIs("ab.genesisPublicAddress"), false)
+			{"issuer != sealing node", func(fn *ssa.Function, res resolver) []Edge {
+				return cmpEdges(fn, pathIsR(res, "trx.IssuerAddress"), signerAddr, false)
 			}},
-			{"DAG loaded", func(fn *ssa.Function) []Edge {
-				var es []Edge
-				for _, c := range callsTo(fn, cn("accountant", "*AccountingBook", "DagLoaded")) {
-					es = append(es, passBool(c, 0, true)...)
-				}
-				return es
+			{"issuer != genesis wallet", func(fn *ssa.Function, res resolver) []Edge {
+				return cmpEdges(fn, pathIsR(res, "trx.IssuerAddress"), pathIsR(res, "ab.genesisPublicAddress"), false)
 			}},
+			{"DAG loaded", dagLoaded},
 		}},
 		{"AddLeaf", cn("accountant", "*AccountingBook", "addLeafMemorized"), []guard{
-			{"leaf != nil", func(fn *ssa.Function) []Edge {
-				return edgesWhere(fn, func(f fact) bool { return f.kind == fNotNil && pathOf(f.x) == bp("leaf") })
+			{"leaf != nil", func(fn *ssa.Function, res resolver) []Edge {
+				return edgesWhere(fn, func(f fact) bool { return f.kind == fNotNil && res(f.x) == bp("leaf") })
 			}},
-			{"issuer != sealing node of the vertex", func(fn *ssa.Function) []Edge {
-				return cmpEdges(fn, pathIs("leaf.Transaction.IssuerAddress"), pathIs("leaf.SignerPublicAddress"), false)
+			{"issuer != sealing node of the vertex", func(fn *ssa.Function, res resolver) []Edge {
+				return cmpEdges(fn, pathIsR(res, "leaf.Transaction.IssuerAddress"), pathIsR(res, "leaf.SignerPublicAddress"), false)
 			}},
 			{"transaction not empty", isEmptyFalse("leaf.Transaction")},
-			{"DAG loaded", func(fn *ssa.Function) []Edge {
-				var es []Edge
-				for _, c := range callsTo(fn, cn("accountant", "*AccountingBook", "DagLoaded")) {
-					es = append(es, passBool(c, 0, true)...)
-				}
-				return es
-			}},
+			{"DAG loaded", dagLoaded},
 		}},
 		{"addLeafMemorized", nAddVertexByID, []guard{
-			{"issuer != genesis wallet", func(fn *ssa.Function) []Edge {
-				return cmpEdges(fn, pathIs("m.vrx.Transaction.IssuerAddress"), pathIs("ab.genesisPublicAddress"), false)
+			{"issuer != genesis wallet", func(fn *ssa.Function, res resolver) []Edge {
+				return cmpEdges(fn, pathIsR(res, "m.vrx.Transaction.IssuerAddress"), pathIsR(res, "ab.genesisPublicAddress"), false)
 			}},
 		}},
 		{"CreateGenesis", nAddVertexByID, []guard{
-			{"genesis receiver != genesis issuer", func(fn *ssa.Function) []Edge { return cmpEdges(fn, genesisReceiverUsed(fn), signerAddr, false) }},
+			{"genesis receiver != genesis issuer", func(fn *ssa.Function, _ resolver) []Edge {
+				return cmpEdges(fn, genesisReceiverUsed(fn), signerAddr, false)
+			}},
 		}},
 	}
 	for _, row := range table {
@@ -574,16 +592,16 @@ func runC10(w *World, r *Report) {
 			spec["receiverPublicAddress"] = "param:4"
 		}
 		curBinder = bindNames(f.fn, spec)
-		effs := f.calls(row.effect)
+		effs := deepCalls(f.fn, byName(row.effect), deepDepth)
 		if len(effs) == 0 {
 			r.bad("sealing-guards", row.fn+"/effect", w.Pos(f.fn.Pos()), "protected effect must exist", "no call of "+row.effect)
 			continue
 		}
 		for _, eff := range effs {
 			for _, g := range row.guards {
-				es := g.edges(f.fn)
-				r.check(behind(eff, es), "sealing-guards", row.fn+"/"+g.label, lineOf(w, eff), shortCallee(eff)+" only behind: "+g.label,
-					fmt.Sprintf("effect reachable without crossing the rejecting edge (%d candidate edges)", len(es)))
+				es := g.edges(f.fn, idRes)
+				r.check(behindDeepSite(eff, g.edges), "sealing-guards", row.fn+"/"+g.label, lineOf(w, eff.c), shortCallee(eff.c)+" only behind: "+g.label,
+					fmt.Sprintf("effect reachable without crossing the rejecting edge (%d candidate edges in %s itself)", len(es), row.fn))
 			}
 		}
 	}
@@ -779,18 +797,20 @@ func runC13(w *World, r *Report) {
 	}
 	fn := f.fn
 	r.rule("park-on-missing-parent", "on the not-found edge of a declared parent every path calls repeater.insert(m) and returns ErrParentDoesNotExists (ErrLeafRejected if parking failed) without touching DAG or index", 3)
-	adds := f.calls(nAddVertexByID)
+	adds := deepCalls(fn, byName(nAddVertexByID), deepDepth)
 	v := ""
 	if len(adds) == 1 {
-		_, aa := callArgs(adds[0])
-		v = pathOf(aa[1])
+		_, aa := callArgs(adds[0].c)
+		v = adds[0].path(aa[1])
 	}
 	nG := 0
-	for _, g := range f.calls(nGetVertex) {
+	for _, gd := range deepCalls(fn, byName(nGetVertex), deepDepth) {
+		g := gd.c
 		_, ga := callArgs(g)
-		if strings.Join(hashElemOrigins(ga[0]), ",") != v+".LeftParentHash,"+v+".RightParentHash" {
+		if strings.Join(hashElemOriginsR(ga[0], gd.res()), ",") != v+".LeftParentHash,"+v+".RightParentHash" {
 			continue
 		}
+		gFrame := frameFor(fn, gd.chain)
 		nG++
 		mutations, noInsert, wrongRet := 0, 0, 0
 		mName := fn.Params[2].Name()
@@ -828,7 +848,7 @@ func runC13(w *World, r *Report) {
 				}
 				return false
 			})
-			dw.run(topFrame(fn), fe.To(), 0)
+			dw.run(gFrame, fe.To(), 0)
 			dw = newDeepWalk(func(in ssa.Instruction, fr *frame) bool {
 				if isPark(in, fr) {
 					return true
@@ -838,7 +858,7 @@ func runC13(w *World, r *Report) {
 				}
 				return false
 			})
-			dw.run(topFrame(fn), fe.To(), 0)
+			dw.run(gFrame, fe.To(), 0)
 		}
 		// parked successfully → the caller must be told the parent is missing; ErrLeafRejected only when the buffer refused
 		for _, pk := range parks {
